@@ -174,6 +174,24 @@ Proof.
 Qed.
 End Assemble.
 
+(* ------------------------------------------------------------------ the textbook form: L(t) = -s (r' K^-1 r + log det K), no Cholesky *)
+Section LogDetForm.
+Variables (n p nh : nat) (K : R -> 'M[R]_n) (x : R) (dKt : nat -> 'M[R]_n) (h : nat) (y : 'cV[R]_n) (P : 'M[R]_(n,p)) (s : R).
+Hypothesis HK : mx_derive K x (dKt h).
+Hypothesis Kpos : Rlt 0 (\det (K x)).
+Hypothesis Ksym : (K x)^T = K x.
+Hypothesis PKPu : P^T *m cho_solve (K x) P \in unitmx.
+Lemma pos_unit : K x \in unitmx.
+Proof. rewrite unitmxE unitfE. apply/RneqP => E. have H := Kpos. rewrite E in H. exact: (Rlt_irrefl _ H). Qed.
+Theorem loglik_logdet_grad :
+  is_derive (fun t => - s * (((gls_r (K t) P y)^T *m gls_a (K t) P y) 0 0 + ln (\det (K t)))) x
+            (LogLikGrad.grad n nh (cvv (gls_a (K x) P y)) (fun j l k => mxv (dKt k) j l) (mxv (invmx (K x))) s (fun _ => 1) h).
+Proof.
+  rewrite loglik_grad_matrix_form. apply: is_deriveZ. apply: is_deriveD; last exact: jacobi_logdet.
+  exact: (quad_gls_derive y HK pos_unit Ksym PKPu).
+Qed.
+End LogDetForm.
+
 (* ------------------------------------------------------------------ the generated value functions and their gradients *)
 Section Final.
 Variables (n p nh : nat) (chol : 'M[R]_n -> 'M[R]_n).
